@@ -7,6 +7,7 @@ import (
 	"strings"
 	"testing"
 	"time"
+	"unicode"
 
 	mail "github.com/wneessen/go-mail"
 	"pgregory.net/rapid"
@@ -36,6 +37,14 @@ type c05Case struct {
 func isDotAtom(s string) bool {
 	if s == "" || s[0] == '.' || s[len(s)-1] == '.' || strings.Contains(s, "..") {
 		return false
+	}
+	// Unicode white space and invisible runes are UTF8-non-ascii by the letter of RFC 6532, but a caller
+	// who means them puts them inside a quoted-string (the *FromString setters trim white space around
+	// the list elements, as documented for a comma separated list)
+	for _, r := range s {
+		if r >= 0x80 && (unicode.IsSpace(r) || !unicode.IsPrint(r)) {
+			return false
+		}
 	}
 	for i := 0; i < len(s); i++ {
 		c := s[i]
@@ -301,7 +310,9 @@ func (a c05Addr) render2() string {
 	return local + "@" + a.Domain
 }
 
-var c05LocalChars = []string{"%", "%s", "%%", "%d", "%!", " ", "<", ">", "@", ",", ";", ":", "\\", "\"", "a", "b", "x", ".", "é", "日", "NOTIFY=NEVER", "ORCPT=rfc822;y", "> ", " SIZE=1", "(", ")", "[", "]", "\t"}
+var c05LocalChars = []string{"%", "%s", "%%", "%d", "%!", " ", "<", ">", "@", ",", ";", ":", "\\", "\"", "a", "b", "x", ".", "é", "日", "NOTIFY=NEVER", "ORCPT=rfc822;y", "> ", " SIZE=1", "(", ")", "[", "]", "\t",
+	// runes that Go's strconv/unicode call non-printable but that are ordinary UTF-8 to SMTP
+	"\u00a0", "\u3000", "\u200b", "\ufeff", "\u00ad", "\u2028"}
 
 func c05GenAddr(t *rapid.T, label string, setters []string) c05Addr {
 	a := c05Addr{Domain: rapid.SampledFrom([]string{"example.com", "verif.example", "sub.domain.example.org", "xn--mnchen-3ya.example"}).Draw(t, label+"-domain")}
